@@ -124,3 +124,11 @@ META["C07"] = {
     "note": "The harness never writes to a message it obtained from a read; model operations that panic are not judged here (C20); trait models that merely wrap one resource.Value are covered through the core resources.",
     "technique": "stateful property testing (rapid) with a deep-copy snapshot registry and input scribbling; differential against the reference store for the core resources",
 }
+META["C19"] = {
+    "text": ("Stateful property testing of the electric model through the Model API and the ElectricApi / MemorySettingsApi servers: a bounded-exhaustive layer enumerates every operation sequence up to "
+             "length 4 (quick) / 5 (thorough) over a compact alphabet on two modes plus an unknown id, rapid draws longer sequences over up to 4 modes, and a concurrent variant runs 2-4 goroutines. "
+             "After every step (at quiescence when concurrent) the documented invariants are checked: at most one normal mode, active mode exists once changed and is never deleted, clear-active selects "
+             "the normal mode (NotFound and no change without one), a switch to a different id stamps the fake clock's reading of that call, deleting an absent mode gives NotFound unless allow-missing."),
+    "note": "Only invariants are asserted where the statement leaves the exact result open (how a second normal mode is refused); re-selecting the already active mode is not asserted to keep the start time; the concurrent variant judges only executed schedules.",
+    "technique": "bounded-exhaustive operation sequences + rapid stateful sequences + concurrent stress, invariant oracle with a fake clock",
+}
